@@ -683,6 +683,11 @@ def ref_resolve(files, sys_name, mem_name, acc, cli_cache):
     return exp
 
 
+def ports_alias(exp):
+    """the on-chip flash of an SRAM-only system is an alias of the SRAM entry (same dict contents)"""
+    return exp["per_mem"].get("OnChipFlash") == exp["per_mem"].get("Sram")
+
+
 def parse_verbose_config(txt):
     got = {}
     for line in txt.splitlines():
@@ -727,6 +732,8 @@ def gen_sections(r, tag):
             if r.random() < 0.3:
                 kv[m + "_read_latency"] = str(r.choice([16, 32, 500]))
                 kv[m + "_write_latency"] = str(r.choice([16, 32, 250]))
+            elif r.random() < 0.25:  # only one of the two latencies: the other stays unspecified
+                kv[m + r.choice(["_read_latency", "_write_latency"])] = str(r.choice([16, 32, 64, 250, 500]))
         secs["System_Config." + nm] = kv
     n_mem = r.randint(1, 4)
     names_m = [f"M{tag}{i}" for i in range(n_mem)]
@@ -761,7 +768,7 @@ class C18(check.Check):
     components = {"real": ["vela.main argument parsing, configuration path resolution, ArchitectureFeatures._get_vela_config / _read_config"],
                   "model": ["environment simulator: private directory tree, working directory, decoy files", "reference resolver of OPTIONS.md"],
                   "stub": ["the network compiled is a fixed one-operator model (only the resolved configuration is observed)"]}
-    assumptions = ["values are observed through --verbose-config; defaults documented only as '1 or the equivalent' are asserted for clock, ports, scales and burst length, not for latencies",
+    assumptions = ["values are observed through --verbose-config; defaults documented only as '1 or the equivalent' are asserted for clock, ports, scales and burst length; a latency the chain leaves unspecified has no documented value and is only required not to follow the value of its sibling latency (twin resolution)",
                    "the arena cache size is asserted only when the command line or the selected memory mode specifies it"]
     rule = ("generated .ini files (1..2 files, 1..3 system configs, 1..4 memory modes, inheritance chains, option subsets, port mappings, "
             "out-of-range / self-inheriting / missing sections) or the bundled Arm/vela.ini given as Dir/file.ini, x selection options x "
@@ -902,6 +909,37 @@ class C18(check.Check):
                     if diffs:
                         out["viol"].append(dict(prop="C18", oracle="resolved_value_differs", diffs=diffs[:6], ctx=ctx,
                                                 sig=dict(oracle="resolved_value_differs", key=diffs[0][0])))
+                    # an option the selected chain leaves unspecified has no documented numeric default here (latencies), but it
+                    # cannot depend on the value of a *different* option: change the specified sibling everywhere and resolve again
+                    for m, vals in exp["per_mem"].items():
+                        given = [kk for kk in ("read_latency", "write_latency") if vals.get(kk) is not None]
+                        if len(given) != 1 or m == "OnChipFlash" and "Sram" in exp["per_mem"] and ports_alias(exp):
+                            continue
+                        other = "write_latency" if given[0] == "read_latency" else "read_latency"
+                        key = f"{m}_{given[0]}".lower()
+                        changed = False
+                        for k, f in enumerate(desc["files"]):
+                            if f["kind"] == "bundled":
+                                continue
+                            secs2 = {sn: {kk: (str(int(vv) + 7) if kk.lower() == key else vv) for kk, vv in kv.items()} for sn, kv in f["sections"].items()}
+                            changed = changed or secs2 != f["sections"]
+                            with open(os.path.join(userdir, f"file{k}.ini"), "w") as fh:
+                                fh.write(ini_text(secs2))
+                        if not changed:
+                            continue
+                        os.chdir(cwd)
+                        try:
+                            cr2 = netsim.C.vela_main(argv)
+                        finally:
+                            os.chdir(old)
+                        out["counters"]["sibling_option_twin"] = out["counters"].get("sibling_option_twin", 0) + 1
+                        got2 = parse_verbose_config(cr2["out"])
+                        if cr2["rc"] == 0 and not cr2["exc"] and got2.get(f"{m}_{other}") != got.get(f"{m}_{other}"):
+                            out["outcome"] = "unspecified_follows_sibling"
+                            out["viol"].append(dict(prop="C18", oracle="unspecified_option_follows_another_option", unspecified=f"{m}_{other}", changed=f"{m}_{given[0]}",
+                                                    before=got.get(f"{m}_{other}"), after=got2.get(f"{m}_{other}"), ctx=ctx,
+                                                    sig=dict(oracle="unspecified_option_follows_another_option", key=other)))
+                        break
             out["sample"] = dict(argv=[a if not a.startswith(root) else a.replace(root, "<tmp>") for a in argv[2:]], cwd=desc["cwd"], outcome=out.get("outcome"), expected_error=exp_err)
         finally:
             shutil.rmtree(root, ignore_errors=True)
